@@ -8,7 +8,7 @@ from aiomysensors.exceptions import InvalidMessageError
 from aiomysensors.model.message import Message
 
 from vf import env, gen
-from vf.codec_ref import INTERNAL_MAX, ref_format
+from vf.codec_ref import INTERNAL_MAX, plain_int, ref_format
 from vf.runner import Outcome, fail
 
 ID = "C12"
@@ -198,7 +198,7 @@ def _run_hist(case: dict) -> Outcome:
             status, value = await env.rx(gateway, line)
             if status == "leak":
                 continue  # C03's subject
-            if status == "ok" and len(parts) >= 6 and parts[2] == "3" and parts[0].isdigit():
+            if status == "ok" and len(parts) >= 6 and parts[2] == "3" and plain_int(parts[0]):
                 node, mtype = int(parts[0]), parts[4]
                 rules = gateway.protocol.VERSION
                 is_wake = (mtype == "22" and rules in ("2.0", "2.1")) or (mtype == "32" and rules == "2.2")
